@@ -112,6 +112,14 @@ Proof.
 Qed.
 Print Assumptions C20_default_chunking_never_raises_refuted.
 
+(* complement of the refuted statement: with the carry computed exactly the default chunking produces
+   min(n, n_splits) chunks, which is what get_n_chunks = min(n, ceil(n / (n / n_splits))) is when computed exactly;
+   so the ValueError is purely an effect of float rounding *)
+Theorem C20_default_chunking_exact_carry_chunk_count : forall (A : Type) (xs : list A) (m : positive),
+  length (chunk_tasks xs m) = Nat.min (length xs) (Pos.to_nat m).
+Proof. exact @chunk_tasks_count. Qed.
+Print Assumptions C20_default_chunking_exact_carry_chunk_count.
+
 (* the final .T for vector-valued functions: data[j][i] is component j of the result of point i *)
 Theorem C20_transpose_entry : forall (C : Type) (d : nat) (rows : list (list C)) (i j : nat) (r : list C) (c : C),
   (forall r, In r rows -> length r = d) ->
